@@ -68,6 +68,10 @@ Fixpoint all2 {A B} (f : A -> B -> bool) (a : list A) (b : list B) : bool :=
 Definition look_ok (c : case) (w : world) (o : ostep) : bool :=
   all2 (fun v seg => all2 (fun al x => zin x al) (exp_slot c w v) seg) (slots w) (o_look o).
 Definition res_ok (r : result) (o : ostep) : bool :=
+  if o_r o =? 4 then
+    (* script-level observation (class_exists / interface_exists / new): only found-or-not is visible *)
+    match r with RFound (_ :: _) => o_d o =? 1 | _ => o_d o =? 0 end
+  else
   match r with
   | ROk | RNone => (o_r o =? 0) && (o_d o =? -1)
   | RErr => o_r o =? 1
